@@ -747,6 +747,25 @@ func checkExport(c ExportCase) error {
 		if pos != len(c.Chunks) {
 			return fmt.Errorf("batches end at chunk %d of %d", pos, len(c.Chunks))
 		}
+		// the same batches written to numbered files
+		dir, err := os.MkdirTemp("", "verif-c14b-")
+		if err != nil {
+			return fmt.Errorf("INFRA: %v", err)
+		}
+		defer os.RemoveAll(dir)
+		if err := rag.NewBatchExporterWithConfig(c.Batch, e.build()).ExportToFiles(chunks, filepath.Join(dir, "part-%03d.out")); err != nil {
+			return fmt.Errorf("BatchExporter.ExportToFiles failed: %v", err)
+		}
+		ents, _ := os.ReadDir(dir)
+		if len(ents) != len(batches) {
+			return fmt.Errorf("ExportToFiles wrote %d files for %d batches", len(ents), len(batches))
+		}
+		for i, b := range batches {
+			got, err := os.ReadFile(filepath.Join(dir, fmt.Sprintf("part-%03d.out", i)))
+			if err != nil || string(got) != b.Data {
+				return fmt.Errorf("ExportToFiles: file of batch %d differs from the batch's data (err %v, %d vs %d bytes)", i, err, len(got), len(b.Data))
+			}
+		}
 	case "stream":
 		var buf bytes.Buffer
 		se := rag.NewStreamExporterWithConfig(&buf, e.build())
